@@ -11,6 +11,10 @@ class DataContainer(dict):
         self._allow_compute = dict({k: True for k in self.keys()})
 
     def add(self, data: DataArray, name: str, allow_compute: bool = True) -> None:
+        # Store a shallow copy: the array may be shared with another model (e.g. a
+        # rotator stores results of the model it rotates), whose array must keep
+        # its own name and attributes
+        data = data.copy(deep=False)
         data.name = name
         super().__setitem__(name, data)
         self._allow_compute[name] = True if allow_compute else False
